@@ -72,6 +72,16 @@ void EgraphModelBuilder::addTheoryFunctionEvaluation(ModelBuilder & modelBuilder
     vec<PTRef> vals; vals.capacity(orig_enode.getSize());
     for (ERef child_er : orig_enode) {
         PTRef child_tr = enode_store.getPTRef(child_er);
+        if (logic.hasSortBool(child_tr)) {
+            // The value of a Boolean argument is its value in the model of the SAT solver, never an abstract value
+            bool const negated = logic.isNot(child_tr);
+            PTRef atom = negated ? logic.getPterm(child_tr)[0] : child_tr;
+            if (modelBuilder.hasVarVal(atom)) {
+                PTRef val = modelBuilder.getVarVal(atom);
+                vals.push(negated ? logic.mkNot(val) : val);
+                continue;
+            }
+        }
         vals.push(getAbstractValueForERef(child_er,logic.getSortRef(child_tr)));
     }
     modelBuilder.addToTheoryFunction(logic.getSymRef(orig_tr), vals, getAbstractValueForERef(target_er, logic.getSortRef(orig_tr)));
